@@ -131,24 +131,54 @@ partial def jsonOut : Json → Sexp
 def sortByKey {α} (l : List (String × α)) : List (String × α) :=
   (l.toArray.qsort (fun a b => a.1 < b.1)).toList
 
+/-- an argument made of plain values only, as JSON (the lab parses Go literals into JSON) -/
+partial def plainOf : Arg → Option Json
+  | .json j => some j
+  | .val v => some (GoVal.goEncode v)
+  | .list xs => (xs.mapM plainOf).map .arr
+  | .dict kvs => ((sortByKey kvs).mapM fun kv => (plainOf kv.2).map fun j => (kv.1, j)).map .obj
+  | _ => none
+
+def isIndexOption (bs : Builder.Builders) (bname oname : String) : Bool :=
+  match findBuilder bs bname with
+  | some b => match findOption b oname with
+    | some o => o.assignments.any fun a => a.method == "index"
+    | none => false
+  | none => false
+
+/-- runs of consecutive calls of one index option are printed sorted (the real converter ranges
+    over a Go map: its call order varies from run to run) -/
+def sortIndexRuns (isIdx : String → Bool) (calls : List (String × Sexp)) : List Sexp :=
+  let rec go (pending : List (String × Sexp)) (rest : List (String × Sexp)) (fuel : Nat) : List Sexp :=
+    let flush (p : List (String × Sexp)) : List Sexp :=
+      ((p.map fun x => (x.2.render, x.2)).toArray.qsort (fun a b => a.1 < b.1)).toList.map (·.2)
+    match fuel, rest with
+    | 0, _ => flush pending ++ rest.map (·.2)
+    | _, [] => flush pending
+    | f + 1, (n, s) :: more =>
+      match pending with
+      | [] => if isIdx n then go [(n, s)] more f else s :: go [] more f
+      | (pn, _) :: _ =>
+        if pn == n then go (pending ++ [(n, s)]) more f
+        else flush pending ++ (if isIdx n then go [(n, s)] more f else s :: go [] more f)
+  go [] calls (calls.length + 1)
+
 mutual
-partial def argOut : Arg → Sexp
-  | .json j => .list [.atom "j", jsonOut j]
-  | .val v => .list [.atom "j", jsonOut (GoVal.goEncode v)]
-  | .fail be => .list [.atom "fail", .atom (if be then "be" else "plain")]
-  | .builder name ctor calls => .list (.atom "b" :: .str name :: bodyOut ctor calls)
-  | .list xs =>
-    if xs.all (fun a => match a with | .val _ => true | .json _ => true | _ => false) then
-      .list [.atom "j", .list (.atom "a" :: xs.map fun a => match argOut a with | .list [_, j] => j | s => s)]
-    else .list (.atom "l" :: xs.map argOut)
-  | .dict kvs =>
-    let kvs := sortByKey kvs
-    if kvs.all (fun kv => match kv.2 with | .val _ => true | .json _ => true | _ => false) then
-      .list [.atom "j", .list (.atom "o" :: kvs.map fun kv => .list [.str kv.1, match argOut kv.2 with | .list [_, j] => j | s => s])]
-    else .list (.atom "d" :: kvs.map fun kv => .list [.str kv.1, argOut kv.2])
-partial def bodyOut (ctor : List Arg) (calls : List Call) : List Sexp :=
-  .list (.atom "ctor" :: ctor.map argOut) ::
-    calls.map fun cl => .list (.atom "call" :: .str cl.opt :: cl.args.map argOut)
+partial def argOut (bs : Builder.Builders) (a : Arg) : Sexp :=
+  match plainOf a with
+  | some j => .list [.atom "j", jsonOut j]
+  | none =>
+    match a with
+    | .fail be => .list [.atom "fail", .atom (if be then "be" else "plain")]
+    | .builder name ctor calls => .list (.atom "b" :: .str name :: bodyOut bs name ctor calls)
+    | .list xs => .list (.atom "l" :: xs.map (argOut bs))
+    | .dict kvs => .list (.atom "d" :: (sortByKey kvs).map fun kv => .list [.str kv.1, argOut bs kv.2])
+    | .json j => .list [.atom "j", jsonOut j]
+    | .val v => .list [.atom "j", jsonOut (GoVal.goEncode v)]
+partial def bodyOut (bs : Builder.Builders) (bname : String) (ctor : List Arg) (calls : List Call) : List Sexp :=
+  .list (.atom "ctor" :: ctor.map (argOut bs)) ::
+    sortIndexRuns (isIndexOption bs bname)
+      (calls.map fun cl => (cl.opt, .list (.atom "call" :: .str cl.opt :: cl.args.map (argOut bs))))
 end
 
 def goconvertLine (rest : String) : IO String := do
@@ -167,7 +197,7 @@ def goconvertLine (rest : String) : IO String := do
           | .ok v =>
             match Conv.convert c b v with
             | .ok r =>
-              let calls := (Sexp.list (.atom "build" :: bodyOut r.1 r.2)).render
+              let calls := (Sexp.list (.atom "build" :: bodyOut c.bs b.name r.1 r.2)).render
               return calls ++ "\t" ++ showBRes c b (Conv.replay c b r)
             | .panic w => return "panic " ++ w
             | .unsup w => return "unsup " ++ w
